@@ -236,7 +236,7 @@ BadFate == /\ (Is("Abort") \/ Is("Sanitizer") \/ Is("Timeout"))
            /\ fails' = {F(IF Ev.e = "Sanitizer" /\ Ev.kind = "tsan" THEN "C08"
                           ELSE IF scen \in {"invalid", "api"} THEN "C19" ELSE IF scen = "proto" THEN "C10"
                           \* an execution of a scenario that observes one property and dies delivers none of what that property promises
-                          ELSE IF scen = "incr" THEN "C09" ELSE IF scen = "free" THEN "C15" ELSE IF scen = "expand" THEN "C18"
+                          ELSE IF scen = "incr" THEN "C09" ELSE IF scen = "free" THEN "C15" ELSE IF scen \in {"expand", "expcase"} THEN "C18"
                           ELSE IF scen = "export" THEN "C20" ELSE IF scen = "grid" THEN "C16" ELSE "C07",
                           <<Ev.e, IF "kind" \in DOMAIN Ev THEN Ev.kind ELSE "", Ev.stderr>>, FateSignature(Ev, base))}
            /\ call' = Idle /\ expect' = ""
@@ -365,11 +365,11 @@ ExpandFails ==
         \* utilisation never above the target / cap beyond rounding, unless it already was (then nothing changes)
         (IF 64 * before >= Ev.p64 * avail \/ avail = 0 \/ before = 0
          THEN (IF after # before THEN {F("C18", <<"expansion although the density is already at the target">>, "exp-noop")} ELSE {})
-         ELSE (IF 64 * after > Ev.p64 * avail + 64 * (IF Ev.kind = "density" THEN 2 * MaxH(b) ELSE SumH(b))
+         ELSE (IF 64 * after > Ev.p64 * avail + 64 * (IF Ev.kind = "density" THEN MaxH(b) ELSE SumH(b))
                THEN {F("C18", <<"utilisation above the requested target / cap", after, avail, Ev.p64>>, "exp-over")} ELSE {}) \cup
               \* the target is reached (within rounding) when no cell hit the width cap
               (IF Ev.kind = "density" /\ (\A i \in Movable(b) : b.cells[i].w * b.cells[i].h > 0 => a.cells[i].w < capW)
-                  /\ 64 * after < Ev.p64 * avail - 64 * 2 * MaxH(b)
+                  /\ 64 * after < Ev.p64 * avail - 64 * MaxH(b)
                THEN {F("C18", <<"target density not reached although no cell hit the cap", after, avail, Ev.p64>>, "exp-under")} ELSE {})))
 ExpandEv == /\ Is("Expand") /\ fails' = ExpandFails
             /\ l' = l + 1 /\ UNCHANGED <<run, scen, params, base, objs, call, hist, expect>>
